@@ -786,6 +786,35 @@ def run_args(ctx, stream, argvs, tapbin, workers=12):
                        nontrivial=lambda c_, i_: i_.startswith("key=") or i_.startswith("ERR"))
 
 
+def expression_pairs(rnd):
+    """(argv with a value expression, the same argv with the bytes the expression denotes): tap must answer both alike —
+    evaluating an expression must not disturb anything else (the address prefix is a global the bech32 functions also use)"""
+    k = rand_key(rnd).hex()
+    p20, p32 = bytes(range(20)), bytes(range(32))
+    out = []
+    for hrp in ("bc", "tb", "x"):
+        a20 = bech32m_encode(hrp, 1, p20); a32 = bech32m_encode(hrp, 1, p32)
+        out.append(([k, "1", "[OP_HASH160 bech32dec(%s) OP_EQUAL]" % a20, "0"], [k, "1", "[OP_HASH160 0x%s OP_EQUAL]" % p20.hex(), "0"]))
+        out.append(([k, "2", "0x51", "0x52", "1", "bech32dec(%s)" % a32], [k, "2", "0x51", "0x52", "1", "0x" + p32.hex()]))
+        out.append(([k, "1", "[OP_1]", "0", "bech32dec(%s)" % a20, "0x01"], [k, "1", "[OP_1]", "0", "0x" + p20.hex(), "0x01"]))
+        out.append(([k, "2", "[bech32dec(%s) OP_DROP OP_1]" % a32, "0x51"], [k, "2", "[0x%s OP_DROP OP_1]" % p32.hex(), "0x51"]))
+    return out
+
+
+def run_expression_pairs(ctx, rnd, tapbin):
+    pairs = expression_pairs(rnd)
+    def one(av):
+        rc, out, err = run_tap(tapbin, ["--"] + av)
+        return observe(rc, out, err, False)[0]
+    with ThreadPoolExecutor(max_workers=12) as ex:
+        a = list(ex.map(one, [p[0] for p in pairs])); b = list(ex.map(one, [p[1] for p in pairs]))
+    for (av, bv), x, y in zip(pairs, a, b):
+        if x != y:
+            ctx.violation(args_line(av), {"stream": "argument-expressions", "with_expression": x, "with_literal": y, "literal_argv": bv,
+                                          "why": "tap answers differently when an argument is written as a value expression denoting the same bytes"})
+    ctx.count("argument-expressions", len(pairs), distinct_keys=["expr%d" % i for i in range(len(pairs))])
+
+
 def arg_stream(rnd, quick):
     k = rand_key(rnd).hex()
     s = ["0x5152", "0x51", "0xac"]
@@ -802,6 +831,10 @@ def arg_stream(rnd, quick):
         [k, "3", "OP_1", "[OP_1 OP_2]", "0x"], [k, "2", "0", "16", "1"], [k, "1", "5"], [k, "1", "abc", "0"], [k, "2", "51", "0x51", "1"],
         [k, "1", "[OP_DUP OP_HASH160 0x0102030405060708091011121314151617181920 OP_EQUALVERIFY OP_CHECKSIG]", "0", "0x" + "11" * 64, "0x" + "22" * 33],
         [k, "1", "[0x" + "ab" * 520 + "]", "0"], [k, "1", "[0x" + "ab" * 521 + "]", "0"],
+        # value expressions with inline functions in scripts and spend arguments (they must not disturb anything else:
+        # e.g. the address prefix is a global that bech32 functions also use)
+        [k, "2", "0x51", "[OP_SHA256 sha256(0x01) OP_EQUAL]", "1"],
+        [k, "1", "[hash160(0x02aa) OP_DROP OP_1]"], [k, "2", "[reverse(0x0102) OP_DROP OP_1]", "0x51", "0"],
         # invalid scripts: undefined opcode, truncated push
         [k, "3", "0x51", "0xbb", "0x52"], [k, "2", "0x51", "0xff", "0"], [k, "2", "0x02ab", "0x51"], [k, "1", "0x4c"], [k, "1", "0x4d0100"],
         [k, "2", "0xba", "0xbb", "1"], [k, "1", "0x4e00000000"], [k, "1", "0x4d0902" + "00" * 521],
@@ -904,6 +937,7 @@ def run(ctx):
     run_cases(ctx, "invalid-inputs", odd, tapbin, with_tx=False)
     # ---- argument level
     run_args(ctx, "arguments", arg_stream(rnd, quick), tapbin)
+    run_expression_pairs(ctx, rnd, tapbin)
 
 
 def replay(ctx, case):
